@@ -63,6 +63,10 @@ CLAIMS = {
          "DESIGN.md 5 C08",
          "Structural necessary conditions: every attempt is recorded on entry before any refusal check, with arguments built from exactly this call's parameters, and closed with the function's own results; no reference that may alias live interpreter memory or the operand stack is stored into recorder-owned memory without a copy, along any static call chain.",
          "does not decide sibling order beyond append-on-entry, nor equality of recorded values with an independent log; return data of a finished frame is taken as owned by the caller. " + TRUST),
+ "C15": ("clone rule on the EIP-1153 instructions and the gas/memory helpers; table-literal facts for slots 0x5c-0x5e, the Cancun constructor and the table switch; SSA sibling agreement between opMcopy, memoryMcopy, gasMcopy and Memory.Copy",
+         "DESIGN.md 5 C15",
+         "Structural necessary conditions of the two EIPs: transient-storage instructions and their gas are the reference's at the renumbered bytes; MCOPY's operands, memory-size function (max of both starts + length), gas function (per-word copy gas on the length operand + expansion) and the overlap-safe, zero-length-safe copy agree position by position; the three bytes are installed only in the Cancun table, which is selected first.",
+         "memmove semantics of the builtin copy, the StateDB's transient journal, and equality with an executable EIP-5656 model are not decided; no newer reference implementation is on disk. " + TRUST),
 }
 
 NA = {}
